@@ -48,20 +48,54 @@ fn fnv(s: &str) -> u64 {
     h
 }
 
+/// diagnostics only (the call the checker and the server issue concurrently), sorted
+fn diag_only(analysis: &EmmyLuaAnalysis, id: FileId) -> String {
+    let mut diags = match ws::diagnostics_json(analysis, id) {
+        Value::Array(a) => a.iter().map(|d| d.to_string()).collect::<Vec<_>>(),
+        _ => vec!["<none>".to_string()],
+    };
+    diags.sort();
+    diags.join("\n")
+}
+
+fn diag_codes(s: &str, codes: &mut std::collections::BTreeMap<String, u64>) -> u64 {
+    let mut n = 0;
+    for line in s.lines() {
+        if let Ok(v) = serde_json::from_str::<Value>(line) {
+            n += 1;
+            let c = v["code"].as_str().map(|x| x.to_string()).unwrap_or_else(|| v["code"].to_string());
+            *codes.entry(c).or_insert(0) += 1;
+        }
+    }
+    n
+}
+
 /// `conc WORKSPACE THREADS ROUNDS`
+/// Per round two lock-step phases (a barrier before *every* step, so that the calls of all threads really
+/// overlap): phase D — step k: thread t runs `diagnose_file` on file (k + t) mod n (distinct files at the same
+/// moment; with byte-identical files these are the calls a per-analysis scratch cache would mix up);
+/// phase S — the same with diagnostics + semantic info of every name token. Then a free-running phase in
+/// which every thread walks all files from its own offset.
 pub fn conc(main: &str, threads: usize, rounds: usize) -> i32 {
     let analysis = Arc::new(ws::load(main));
     let files = ws::main_files(&analysis);
+    let n = files.len();
+    let seq_diag: Vec<String> = files.iter().map(|(_, id)| diag_only(&analysis, *id)).collect();
     let sequential: Vec<String> = files.iter().map(|(_, id)| query_file(&analysis, *id)).collect();
     // a second sequential pass: queries must not change the answers either
     let again: Vec<String> = files.iter().map(|(_, id)| query_file(&analysis, *id)).collect();
+    let again_diag: Vec<String> = files.iter().map(|(_, id)| diag_only(&analysis, *id)).collect();
     let mut failures = Vec::new();
-    if sequential != again {
+    if sequential != again || seq_diag != again_diag {
         failures.push(json!({"kind": "sequential-repeat-differs"}));
     }
+    let mut codes = std::collections::BTreeMap::new();
+    let seq_diagnostics: u64 = seq_diag.iter().map(|s| diag_codes(s, &mut codes)).sum();
     let seq = Arc::new(sequential);
+    let seqd = Arc::new(seq_diag);
     let files = Arc::new(files);
     let mut queries = 0u64;
+    let mut conc_diagnostics = 0u64;
     for round in 0..rounds {
         let barrier = Arc::new(Barrier::new(threads));
         let mut handles = Vec::new();
@@ -69,32 +103,61 @@ pub fn conc(main: &str, threads: usize, rounds: usize) -> i32 {
             let analysis = analysis.clone();
             let files = files.clone();
             let seq = seq.clone();
+            let seqd = seqd.clone();
             let barrier = barrier.clone();
             handles.push(std::thread::spawn(move || {
-                barrier.wait();
                 let mut bad = Vec::new();
-                let n = files.len();
-                // every thread walks all files, starting at a different one, so that the same file is
-                // queried by several threads at once
+                let mut count = 0u64;
+                let mut ndiag = 0u64;
+                let check = |phase: &str, i: usize, got: String, want: &String, bad: &mut Vec<Value>| {
+                    if &got != want {
+                        bad.push(json!({"kind": "concurrent-differs-from-sequential", "phase": phase, "file": files[i].0, "thread": t,
+                            "sequential_lines": want.lines().count(), "concurrent_lines": got.lines().count(),
+                            "first_difference": first_diff(want, &got)}));
+                    }
+                };
+                // phase D: lock-step diagnose_file
+                for k in 0..n {
+                    let i = (k + t + round) % n;
+                    barrier.wait();
+                    let got = match vh_common::catch(std::panic::AssertUnwindSafe(|| diag_only(&analysis, files[i].1))) {
+                        Ok(s) => s,
+                        Err(e) => format!("<panic {e}>"),
+                    };
+                    ndiag += got.lines().filter(|l| l.starts_with('{')).count() as u64;
+                    check("lockstep-diagnose", i, got, &seqd[i], &mut bad);
+                    count += 1;
+                }
+                // phase S: lock-step diagnostics + semantic info
+                for k in 0..n {
+                    let i = (k + t * 3 + round) % n;
+                    barrier.wait();
+                    let got = match vh_common::catch(std::panic::AssertUnwindSafe(|| query_file(&analysis, files[i].1))) {
+                        Ok(s) => s,
+                        Err(e) => format!("<panic {e}>"),
+                    };
+                    check("lockstep-semantic", i, got, &seq[i], &mut bad);
+                    count += 1;
+                }
+                // free-running phase
+                barrier.wait();
                 for k in 0..n {
                     let i = (k + t * 7 + round) % n;
                     let got = match vh_common::catch(std::panic::AssertUnwindSafe(|| query_file(&analysis, files[i].1))) {
                         Ok(s) => s,
                         Err(e) => format!("<panic {e}>"),
                     };
-                    if got != seq[i] {
-                        bad.push(json!({"kind": "concurrent-differs-from-sequential", "file": files[i].0, "thread": t,
-                            "sequential_hash": fnv(&seq[i]), "concurrent_hash": fnv(&got),
-                            "first_difference": first_diff(&seq[i], &got)}));
-                    }
+                    check("free", i, got, &seq[i], &mut bad);
+                    count += 1;
                 }
-                (n as u64, bad)
+                (count, ndiag, bad)
             }));
         }
         for h in handles {
             match h.join() {
-                Ok((n, bad)) => {
-                    queries += n;
+                Ok((c, d, bad)) => {
+                    queries += c;
+                    conc_diagnostics += d;
                     failures.extend(bad);
                 }
                 Err(_) => failures.push(json!({"kind": "thread-panicked"})),
@@ -102,10 +165,15 @@ pub fn conc(main: &str, threads: usize, rounds: usize) -> i32 {
         }
     }
     let tokens: usize = seq.iter().map(|s| s.lines().count()).sum();
+    let nfail = failures.len();
+    failures.truncate(20);
     println!(
         "{}",
-        json!({"files": files.len(), "threads": threads, "rounds": rounds, "file_queries": queries,
-               "answer_lines": tokens, "failures": failures,
+        json!({"files": n, "threads": threads, "rounds": rounds, "file_queries": queries,
+               "answer_lines": tokens, "failures": failures, "failure_count": nfail,
+               "sequential_diagnostics": seq_diagnostics, "diagnostic_codes": codes,
+               "lockstep_diagnostics_seen": conc_diagnostics,
+               "lockstep_diagnostics_expected": seq_diagnostics * (threads as u64) * (rounds as u64),
                "digest": seq.iter().map(|s| fnv(s)).collect::<Vec<_>>()})
     );
     0
@@ -114,7 +182,7 @@ pub fn conc(main: &str, threads: usize, rounds: usize) -> i32 {
 fn first_diff(a: &str, b: &str) -> Value {
     for (x, y) in a.lines().zip(b.lines()) {
         if x != y {
-            return json!({"sequential": x, "concurrent": y});
+            return json!({"sequential": x.chars().take(300).collect::<String>(), "concurrent": y.chars().take(300).collect::<String>()});
         }
     }
     json!({"sequential_lines": a.lines().count(), "concurrent_lines": b.lines().count()})
